@@ -31,6 +31,7 @@ func progLines(variant string, prog *Program, facts []string, requested []string
 		ls = append(ls, Line("uni", "src", Hex(p.Path), Hex(p.Name), Hex(p.File), HexList(p.Imports), Hex(p.Source)))
 	}
 	ls = append(ls, facts...)
+	ls = append(ls, Line("uni", "hyp"))
 	ls = append(ls, Line("uni", "load", HexList(requested)), Line("uni", "dump"))
 	return ls
 }
@@ -94,6 +95,9 @@ func UniverseProperty(prop string, impl UniImpl) Property {
 		outs := make([]string, len(lines))
 		for i := range outs {
 			outs[i] = "ok"
+			if Fields(lines[i])[1] == "hyp" {
+				outs[i] = ModelReports + "hyp " // answered by the model only: do the facts meet the theorems' hypotheses?
+			}
 		}
 		var fails []Failure
 		if len(lines) == 1 && Fields(lines[0])[1] == "lookupchecks" {
@@ -202,6 +206,7 @@ func UniverseProperty(prop string, impl UniImpl) Property {
 						ls = append(ls, Line("uni", "src", Hex(p.Path), Hex(p.Name), Hex(p.File), HexList(p.Imports), Hex(p.Source)))
 					}
 					ls = append(ls, chk.FactLines(prog)...)
+					ls = append(ls, Line("uni", "hyp"))
 					last := requested[len(requested)-1]
 					ls = append(ls, Line("uni", "load", HexList([]string{last})))
 					for i := len(requested) - 2; i >= 0; i-- {
@@ -338,6 +343,9 @@ func LoadingProperty(impl UniImpl) Property {
 		outs := make([]string, len(lines))
 		for i := range outs {
 			outs[i] = "ok"
+			if Fields(lines[i])[1] == "hyp" {
+				outs[i] = ModelReports + "hyp "
+			}
 		}
 		var fails []Failure
 		prog := &Program{Module: "example.com/m", V2: impl.V2}
@@ -506,6 +514,7 @@ func LoadingProperty(impl UniImpl) Property {
 					ls = append(ls, Line("uni", "src", Hex(p.Path), Hex(p.Name), Hex(p.File), HexList(p.Imports), Hex(p.Source)))
 				}
 				ls = append(ls, facts...)
+				ls = append(ls, Line("uni", "hyp"))
 				ls = append(ls, Line("uni", "load", HexList(initial)))
 				for _, s := range steps {
 					ls = append(ls, Line("uni", "loadto", HexList(s)))
